@@ -348,6 +348,7 @@ class C16(Check):
         self.check_selectors(ctx, im, cases)
         self.check_spec(ctx, im, cases)
         self.check_text(ctx, im, cases)
+        self.check_attach(ctx, im, cases, rng)
         for c in cases:
             self.oracle_grammar(ctx, im, c)
         # pairwise invariance inside a group (same AST, different spelling)
@@ -469,6 +470,64 @@ class C16(Check):
             elif parsed != c['impl']:
                 ctx.disagree('model pipeline text -> tokens -> selector = Selector(text)', w, c['impl'], parsed)
             ctx.count('seltext-checked')
+
+    def check_attach(self, ctx, im, cases, rng):
+        """attachment (T16.5): a selector parsed with its namespaces and then put, inside a rule object, into a sheet
+        with the same / renamed / fewer / more @namespace declarations: the model's text under the sheet's effective
+        namespaces (`serItems view seq`) = `selectorText` of the attached selector; the specificity does not move."""
+        if not ctx.model_ok:
+            return
+        css = im.css
+        lines, meta = [], []
+        for c in cases:
+            if not in_model_domain(c['toks']) or not c['impl'].startswith('OK'):
+                continue
+            if rng.random() > 0.35:
+                continue
+            ns = c['ns']
+            variant = rng.choice(['same', 'same', 'renamed', 'no-default', 'other-default', 'extra'])
+            if variant == 'same':
+                sns = dict(ns)
+            elif variant == 'renamed':
+                sns = {(('r' + p) if p else p): u for p, u in ns.items()}
+            elif variant == 'no-default':
+                sns = {p: u for p, u in ns.items() if p}
+            elif variant == 'other-default':
+                sns = dict(ns)
+                sns[''] = rng.choice(['urn:p', 'urn:x', ''])
+            else:
+                sns = dict(ns)
+                sns['z'] = rng.choice(['urn:p', 'urn:d', 'urn:z'])
+            try:
+                with time_limit(10):
+                    sheet = css.CSSStyleSheet()
+                    for p_, u_ in sns.items():
+                        sheet.namespaces[p_] = u_
+                    rule = css.CSSStyleRule()
+                    rule.selectorList.selectorText = (list(c['toks']), dict(ns))
+                    if len(rule.selectorList) != 1:
+                        continue
+                    sheet.insertRule(rule)
+                    sel = sheet.cssRules[-1].selectorList[0]
+                    view = dict(sheet.namespaces.namespaces)
+                    got = 'ATT %d %d %d T=%s' % (sel.specificity[1], sel.specificity[2], sel.specificity[3],
+                                                 enc(sel.selectorText))
+            except Exception as e:                      # noqa: BLE001
+                ctx.count('attach-impl-raised:' + type(e).__name__)
+                continue
+            lines.append('attach %s %s %s' % (enc_ns(ns), enc_ns(view), enc_toks(c['toks'])))
+            meta.append((c, variant, sns, got))
+        for (c, variant, sns, got), r in zip(meta, ctx.driver(lines) if lines else []):
+            ctx.case(key=('attach', c['text'], variant, tuple(sorted(sns.items()))), nontrivial=bool(c['ns']) or bool(sns),
+                     kind='attach:' + variant, sample={'text': c['text'], 'ns': c['ns'], 'sheet_ns': sns, 'impl': got[:120]})
+            if r != got:
+                ctx.disagree('selector attached to a sheet (text under the sheet\'s namespaces, specificity)',
+                             dict(self.witness(c), sheet_ns=sns), got, r)
+            sp = c['obj'].specificity
+            if got.split(' ')[1:4] != [str(sp[1]), str(sp[2]), str(sp[3])]:
+                ctx.violate('attaching the selector to a style sheet does not change its specificity',
+                            dict(self.witness(c), sheet_ns=sns), {'detached': sp, 'attached': got[:40]})
+            ctx.count('attach-checked')
 
     def oracle_grammar(self, ctx, im, c):
         """the generator knows specificity and structure by construction"""
